@@ -160,8 +160,7 @@ pub fn c03_judge(c: &C03Case, obs: &mut Obs) -> Result<(), String> {
     let probe_desc = TlDesc {
         timing: tm,
         default_ez: Ez::Linear,
-        kfs: vec![KfDesc { pos: 0.0, a: Some(0.0), b: None, c: None, d: None, ez: None }, KfDesc { pos: 1.0, a: Some(1.0), b: None, c: None, d: None, ez: None }],
-    };
+        kfs: vec![KfDesc { pos: 0.0, a: Some(0.0), b: None, c: None, d: None, ez: None }, KfDesc { pos: 1.0, a: Some(1.0), b: None, c: None, d: None, ez: None }], order: 0 };
     let probe = probe_desc.build();
     // ---- metadata
     if probe.delay().to_bits() != tm.delay.to_bits() {
